@@ -161,6 +161,8 @@ def rest_api():
     # a DELETE binding that declares a body (permitted by google.api.http)
     fb.message("PurgeRequest", [("parent", "string", {"required": True}), ("filter", "string"), ("force", "bool")])
     fb.method(s, "PurgeThings", "PurgeRequest", E, http=("delete", "/v1/{parent=shelves/*}/things", "*"))
+    # server streaming over REST (the reply is a ResponseIterator of the item type)
+    fb.method(s, "WatchThings", "DeleteRequest", "Book", http=("get", "/v1/{name=things/*}:watch"), sstream=True)
     return [fb]
 
 
